@@ -623,6 +623,9 @@ func (m *LifeMon) onReturn(c *eng.Ctx, s lifeState, ev *eng.Event, batch bool) {
 		m.Col.Check(rule, con, ok, ev.Pos, msg, pathIf(!ok, c))
 	}
 	ck("C20.R3", !s.waited || s.cut, "a wait follows the last exec attempt (before returning) and the run was not cut short by a cancellation observed after it")
+	if batch && s.nPrep == 1 && knownNil(c, s.prepErr) {
+		ck("C06.R10", s.nPost == 1, fmt.Sprintf("a batch run whose prep succeeded returns after %d post calls (want exactly one: post sees the settled items once, whatever happened to them)", s.nPost))
+	}
 	if !batch && (s.last == "Exec" || s.last == "Fb") {
 		// the run ends right after the exec phase without post: only legal when that phase is known to have failed
 		ck("C01.R4", knownNonNil(c, s.lastErr), "the run returns after an exec attempt/fallback that may have succeeded, without invoking post (post must run whenever the exec phase produced a result without error)")
@@ -648,7 +651,7 @@ func (m *LifeMon) onReturn(c *eng.Ctx, s lifeState, ev *eng.Event, batch bool) {
 		if batch && s.emptyBatch {
 			role = "batch-empty"
 		}
-		m.Col.CheckAt("C18.R1", role+"|Run:success-return", nonEmpty, "post@"+s.lastPos, "a successful run may return the empty action: "+act.Pretty()+" is not tested against \"\" on this path (return at "+posStr(ev.Pos)+")", pathIf(!nonEmpty, c))
+		m.Col.CheckAt("C18.R1,C10.R9", role+"|Run:success-return", nonEmpty, "post@"+s.lastPos, "a successful run may return the empty action: "+act.Pretty()+" is not tested against \"\" on this path (return at "+posStr(ev.Pos)+")", pathIf(!nonEmpty, c))
 	case eng.TriFalse:
 		sc, isC := act.StringConst()
 		ck("C01.R5", isC && sc == "", "an error return must carry the empty action, got "+act.Pretty())
